@@ -108,7 +108,26 @@ class CmdRig:
         probs = cmdref.judge_frame(self.gen, exp, pr.frames[0])
         if probs:
             bad(probs[0][0], probs[0][1])
+        fr = pr.frames[0]
+        if self.gen == 4 and fr.mtype == 0x36 and len(fr.data) == 32 and call[0].startswith("timer_"):
+            # AT4 timer control (undocumented, four 8-byte slots): whatever the slots of the ACs that are NOT addressed
+            # should hold, it cannot depend on the calls made earlier - the console reported nothing new in between
+            # (the memory is cleared when the console pushes a timer status)
+            seen = self.__dict__.setdefault("_other_slots", {})
+            for k in range(4):
+                if k == call[1]:
+                    continue
+                slot = bytes(fr.data[8 * k:8 * k + 8])
+                if k in seen and seen[k][0] != slot:
+                    bad("history-dependent-frame", f"the slot of AC {k} (not addressed by this call) holds {slot.hex()}, but held "
+                                                   f"{seen[k][0].hex()} in the timer-control frame of call {seen[k][1]} - the console "
+                                                   f"reported nothing in between")
+                seen.setdefault(k, (slot, list(call)))
         return ["accepted"]
+
+    def console_reported(self):
+        """Forget what earlier frames held for non-addressed entities (the console has just reported something)."""
+        self.__dict__.pop("_other_slots", None)
 
     def dispose(self):
         self.rig.dispose()
